@@ -60,6 +60,8 @@ pub enum Op {
     DropReceipt(u8),
     /// application closes the sink
     Close(u8),
+    /// a send that must fail locally (over-long topic / filter): create + poll once
+    SendBad { kind: SendKind },
 }
 
 /// a request the endpoint wrote, as seen by the peer
@@ -77,6 +79,8 @@ pub struct Req {
 
 #[derive(Clone, Debug, PartialEq, Eq)]
 pub struct AckRec {
+    /// the acknowledgement as sent by the peer
+    pub pkt: P5,
     pub t: u8,
     pub id: u16,
     pub reason: u8,
@@ -118,6 +122,8 @@ pub struct World {
     pub closed_by_app: bool,
     pub parked_then_ran: bool,
     pub max_outstanding_pubs: usize,
+    /// vary the contents of v5 acknowledgements (reason codes, reason strings, user properties, SUBACK lists)
+    pub flavor: bool,
 }
 
 pub fn tag_topic(i: usize) -> String {
@@ -185,6 +191,7 @@ impl World {
             closed_by_app: false,
             parked_then_ran: false,
             max_outstanding_pubs: 0,
+            flavor: false,
         })
     }
 
@@ -296,13 +303,36 @@ impl World {
     }
 
     fn response_for(&self, r: &Req) -> P5 {
-        let ack = s5::Ack5 { pid: r.id, ..Default::default() };
+        let v5 = self.eut.role().is_v5();
+        let mut ack = s5::Ack5 { pid: r.id, ..Default::default() };
+        let mut codes: Vec<u8> = vec![1];
+        if self.flavor && v5 {
+            let k = usize::from(r.id) + r.pos;
+            if r.t == 3 && r.qos == 1 {
+                ack.reason = [0u8, 0x10, 0x80, 0x87][k % 4];
+            }
+            if r.t == 3 && r.qos == 2 {
+                ack.reason = [0u8, 0x10][k % 2];
+            }
+            if k % 2 == 0 {
+                ack.reason_string = Some(format!("reason-{}", r.id));
+            }
+            if k % 3 == 0 {
+                ack.user_props = vec![("k".into(), format!("v{}", r.id)), ("k".into(), "again".into())];
+            }
+            codes = vec![[0u8, 1, 2, 0x80][k % 4], 0x87][..1 + k % 2].to_vec();
+        }
         match (r.t, r.qos) {
             (3, 1) => P5::PubAck(ack),
             (3, _) => P5::PubRec(ack),
-            (6, _) => P5::PubComp(ack),
-            (8, _) => P5::SubAck(s5::SubAck5 { pid: r.id, codes: vec![1], ..Default::default() }),
-            _ => P5::UnsubAck(s5::SubAck5 { pid: r.id, codes: if self.eut.role().is_v5() { vec![0] } else { vec![] }, ..Default::default() }),
+            (6, _) => P5::PubComp(s5::Ack5 { reason: 0, ..ack }),
+            (8, _) => P5::SubAck(s5::SubAck5 { pid: r.id, codes, reason_string: ack.reason_string, user_props: ack.user_props }),
+            _ => P5::UnsubAck(s5::SubAck5 {
+                pid: r.id,
+                codes: if v5 { vec![if self.flavor { [0u8, 0x11][usize::from(r.id) % 2] } else { 0 }] } else { vec![] },
+                reason_string: ack.reason_string,
+                user_props: ack.user_props,
+            }),
         }
     }
 
@@ -352,7 +382,7 @@ impl World {
                     let r = self.requests[qi].clone();
                     let resp = self.response_for(&r);
                     let (t, id, reason) = Self::ack_type(&resp);
-                    self.acks.push(AckRec { t, id, reason, for_req: Some(r), step: self.step, dev: None });
+                    self.acks.push(AckRec { pkt: resp.clone(), t, id, reason, for_req: Some(r), step: self.step, dev: None });
                     let b = self.eut.encode(&resp, &[]);
                     if batch {
                         bytes.extend_from_slice(&b);
@@ -415,8 +445,24 @@ impl World {
                 });
                 if let Some((p, req)) = pkt {
                     let (t, id, reason) = Self::ack_type(&p);
-                    self.acks.push(AckRec { t, id, reason, for_req: req, step: self.step, dev: Some(dev) });
-                    self.deviated = true;
+                    // is it, by the protocol, a correct acknowledgement after all?  PUBCOMP answers any
+                    // outstanding PUBREL with its id; everything else must answer the oldest other request
+                    let legit = if t == 7 {
+                        self.unanswered.iter().position(|qi| self.requests[*qi].t == 6 && self.requests[*qi].id == id)
+                    } else {
+                        self.unanswered.iter().position(|qi| self.requests[*qi].t != 6).filter(|k| {
+                            let r = &self.requests[self.unanswered[*k]];
+                            r.id == id && Self::ack_type(&self.response_for(r)).0 == t
+                        })
+                    };
+                    if let Some(k) = legit {
+                        let qi = self.unanswered.remove(k).unwrap();
+                        let r = self.requests[qi].clone();
+                        self.acks.push(AckRec { pkt: p.clone(), t, id, reason, for_req: Some(r), step: self.step, dev: None });
+                    } else {
+                        self.acks.push(AckRec { pkt: p.clone(), t, id, reason, for_req: req, step: self.step, dev: Some(dev) });
+                        self.deviated = true;
+                    }
                     self.eut.peer_send(&p, &[]);
                     self.eut.settle().await;
                 }
@@ -454,6 +500,15 @@ impl World {
                     self.receipts[ri].2 = false;
                     let idx = self.receipts[ri].1;
                     self.eut.drop_receipt(idx);
+                }
+            }
+            Op::SendBad { kind } => {
+                if self.slots.len() < 60 {
+                    let i = self.slots.len();
+                    let spec = SendSpec { kind, topic: "x".repeat(70_000), payload: vec![1], pid: None, user_prop: None };
+                    let fut = self.eut.send(spec);
+                    self.slots.push(Slot { kind, fut: Some(fut), result: None, created: self.step, first_polled: None, resolved: None, dropped: false, again: false, release_of: None, own_id: Some(0) });
+                    self.poll_slot(i);
                 }
             }
             Op::Close(how) => {
